@@ -310,6 +310,25 @@ CLAIMS = {
   technique="Lean 4 theorem proving (failure propagation, by induction over chain syntax) + exhaustive per-scenario "
             "allocation-fault enumeration (validation)",
   design="§6 C20"),
+ "C18": dict(
+  text="Machine-checked proof on the control-flow model of the tool (Jose/Cli.lean, over the model's library functions): "
+       "jose jws ver exits 0 exactly when the library handed out a verifier and its final verdict was true (and, with -O, the "
+       "payload was decodable), whatever output options are present; no verifier means failure; with -O exactly the decoded "
+       "payload is written; jose jwe dec exits 0 exactly when unwrapping, decryptor construction and authenticated "
+       "decryption succeeded, writes the plaintext only then and nothing on failure; the compact text "
+       "protected.payload.signature parses back to exactly its three fields; jwk eql succeeds exactly when the library "
+       "says equal. Differential run (~4.5k command lines quick) of the working tree's cmd/ code (forked in the ASan "
+       "harness, files and stdin) against the model and, independently, against the library through the harness: every "
+       "subcommand, input forms (inline / file / stdin x JSON / compact stream), key arguments (right, wrong, unusable, "
+       "several, sets), -a, -O, -I, -c, -o; every token produced by jws sig / jwe enc is accepted by jws ver / jwe dec; "
+       "fmt conversions preserve verifiability / plaintext; compact output of several signatures or recipients fails.",
+  note="Trusted: Lean kernel, standard axioms; Jose/Cli.lean models jws ver/sig/fmt, jwe dec, jwk thp/pub/eql/exc/gen/use, "
+       "b64 enc/dec; jwe enc / jwe fmt are covered by the implementation-vs-library oracle only; long options, -p and "
+       "`jose alg` are not exercised. Found and fixed: F10 (jws ver -a -O with unusable key exited 0), F11 (jwk thp printed "
+       "stack garbage with exit 0), F23 (body member written twice: detached compact JWS no longer verified after fmt -I).",
+  technique="Lean 4 theorem proving (exit-status and output decisions, compact parsing) + differential against the "
+            "CLI code and the library oracle",
+  design="§6 C18"),
 }
 
 NOT_YET = "check not built yet (framework under construction); will be claimed when its Lean theorems and correspondence exist"
